@@ -98,7 +98,7 @@ def traced_run(w, rng, n, cb, s, e, nfiles=3, coin='bitcoin', h0=0):
 def main(ck, tier, w):
     quick = tier == 'quick'
     res = run_tlc(ck, 'MC_Range_q' if quick else 'MC_Range_t')
-    ck.require_actions(res, ['Begin', 'ScanRecord', 'SelectChain', 'Lookup', 'Open', 'SeekRead', 'CloseIfLast', 'Deliver',
+    ck.require_actions(res, ['Start', 'ScanRecord', 'SelectChain', 'Lookup', 'Open', 'SeekRead', 'CloseIfLast', 'Deliver',
                              'ProduceSummary', 'FlushSome', 'RenameSome', 'FinishDone', 'ExitOk'], 'MC_Range')
     ck.cov['exhaustive'] = True
     ck.cov['rule'] = ('TLC enumerates every linear chain 0..T (T<=%d), every accepted (--start,--end), 5 callbacks, 2 index key '
